@@ -26,6 +26,28 @@ Section Interp.
     | _, _ => n0 N
     end.
 
+  (* numpy.interp (which interp1d delegates to unless fill_value="extrapolate"): the segment is
+     the one with x_j <= q < x_{j+1}; a query equal to a node returns the node's ordinate; a NaN
+     result (infinite ordinates) is recomputed from the segment's right end *)
+  Definition isnan (r : T) : bool := negb (neqb N r r).
+  Definition seg_np (x0 x1 y0 y1 q : T) : T :=
+    let slope := (y1 -! y0) /! (x1 -! x0) in
+    let r := slope *! (q -! x0) +! y0 in
+    if isnan r then
+      let r2 := slope *! (q -! x1) +! y1 in
+      if (isnan r2 && neqb N y0 y1)%bool then y0 else r2
+    else r.
+  Fixpoint interp_np (xs ys : list T) (q : T) : T :=
+    match xs, ys with
+    | x0 :: ((x1 :: xt') as xt), y0 :: ((y1 :: _) as yt) =>
+        if nltb N q x1 then (if neqb N q x0 then y0 else seg_np x0 x1 y0 y1 q)
+        else match xt' with
+             | [] => y1
+             | _ => interp_np xt yt q
+             end
+    | _, _ => n0 N
+    end.
+
   Inductive mode := Strict | Fill (lo hi : T) | Extrap.
 
   Definition interp1d (m : mode) (xs ys : list T) (q : T) : option T :=
@@ -34,13 +56,13 @@ Section Interp.
     match m with
     | Extrap => Some (interp_lin xs ys q)
     | Fill lo hi =>
-        Some (if nltb N q xf then lo else if nltb N xl q then hi else interp_lin xs ys q)
+        Some (if nltb N q xf then lo else if nltb N xl q then hi else interp_np xs ys q)
     | Strict =>
-        if (nltb N q xf || nltb N xl q)%bool then None else Some (interp_lin xs ys q)
+        if (nltb N q xf || nltb N xl q)%bool then None else Some (interp_np xs ys q)
     end.
 
   Definition interp_fill lo hi xs ys q : T :=
-    if nltb N q (hd (n0 N) xs) then lo else if nltb N (last xs (n0 N)) q then hi else interp_lin xs ys q.
+    if nltb N q (hd (n0 N) xs) then lo else if nltb N (last xs (n0 N)) q then hi else interp_np xs ys q.
 
   (* scipy.integrate.cumulative_trapezoid(y, x, initial=0) *)
   Fixpoint cumtrapz_from (acc : T) (y x : list T) : list T :=
